@@ -1032,3 +1032,100 @@ func cmpConstRight(bo *ssa.BinOp) (ssa.Value, token.Token, ssa.Value) {
 	}
 	return bo.X, bo.Op, bo.Y
 }
+
+// ReachPS is Reach with one piece of path sensitivity: a condition value that is branched on in more than one block
+// (the same SSA value, possibly under a negation) is taken the same way every time on a path. The remembered outcomes
+// are forgotten on loop back edges (the value is recomputed per iteration). Starts at the heads of startEdges.
+func ReachPS(fn *ssa.Function, startEdges []Edge, target func(ssa.Instruction) bool, cut *Cut) ssa.Instruction {
+	if cut == nil {
+		cut = NewCut()
+	}
+	// conditions tested in more than one block
+	count := map[ssa.Value]int{}
+	for _, b := range fn.Blocks {
+		if iff := lastIfOf(b); iff != nil {
+			c, _ := stripNot(iff.Cond, true)
+			count[c]++
+		}
+	}
+	var tracked []ssa.Value
+	idx := map[ssa.Value]int{}
+	for _, b := range fn.Blocks {
+		if iff := lastIfOf(b); iff != nil {
+			c, _ := stripNot(iff.Cond, true)
+			if _, done := idx[c]; !done && count[c] > 1 && len(tracked) < 20 {
+				idx[c] = len(tracked)
+				tracked = append(tracked, c)
+			}
+		}
+	}
+	type state struct {
+		b    *ssa.BasicBlock
+		known uint32 // bit i: outcome of tracked[i] is fixed
+		val   uint32 // its outcome
+	}
+	apply := func(s state, e Edge) (state, bool) {
+		iff := lastIfOf(e.From)
+		ns := state{e.From.Succs[e.Idx], s.known, s.val}
+		if iff != nil {
+			c, pol := stripNot(iff.Cond, true)
+			if i, ok := idx[c]; ok {
+				outcome := (e.Idx == 0) == pol // the value of c on this edge
+				bit := uint32(1) << uint(i)
+				if s.known&bit != 0 {
+					if (s.val&bit != 0) != outcome {
+						return ns, false
+					}
+				} else {
+					ns.known |= bit
+					if outcome {
+						ns.val |= bit
+					}
+				}
+			}
+		}
+		if ns.b.Dominates(e.From) { // back edge
+			ns.known, ns.val = 0, 0
+		}
+		return ns, true
+	}
+	seen := map[state]bool{}
+	var work []state
+	for _, e := range startEdges {
+		if cut.Edges[e] {
+			continue
+		}
+		if ns, ok := apply(state{b: e.From}, e); ok && !seen[ns] {
+			seen[ns] = true
+			work = append(work, ns)
+		}
+	}
+	for len(work) > 0 {
+		s := work[len(work)-1]
+		work = work[:len(work)-1]
+		stopped := false
+		for _, in := range s.b.Instrs {
+			if cut.Instrs[in] {
+				stopped = true
+				break
+			}
+			if target(in) {
+				return in
+			}
+		}
+		if stopped {
+			continue
+		}
+		for si := range s.b.Succs {
+			e := Edge{s.b, si}
+			if cut.Edges[e] {
+				continue
+			}
+			if ns, ok := apply(s, e); ok && !seen[ns] {
+				seen[ns] = true
+				work = append(work, ns)
+			}
+		}
+	}
+	return nil
+}
